@@ -11,7 +11,7 @@ use serde_json::{json, Value};
 pub static ENGINE: Engine = Engine {
     prop: "C10",
     level: "exploration",
-    rule: "the real rsbdd binary on EVERY formula with <= 3 (4) AST nodes over the CLI alphabet (4 leaves, not, & | => ^, if, 4 quantifier heads, lfp/gfp, 5 counting comparisons; names bound, free, both) with -t under filter Any/True/False; on every formula <= 2 (3) nodes additionally: all 15 accepted filter spellings and 6 rejected near-misses, the three input channels (--evaluate, file, stdin; byte-identical stdout), every permutation / ordered subset / one-name superset (unused name before, between, after) of its names as ordering file, -v, -t -v together under each filter, -t -b 1, -t -b 3 (byte-identical to -t), and on a 14-formula core the full cross product spelling x channel x ordering x output; ten formulas with five or six free variables under three filters, -v and four orderings. Oracle: header = reference free variables in variable order; rows pairwise disjoint cubes; result column = reference value on every assignment covered; union = all / satisfying / falsifying assignments; -v lines denote exactly the satisfying assignments. distinct = distinct (argv, stdout) pairs",
+    rule: "the real rsbdd binary on EVERY formula with <= 3 (4) AST nodes over the CLI alphabet (4 leaves, not, & | => ^, if, 4 quantifier heads, lfp/gfp, 5 counting comparisons; names bound, free, both) with -t under filter Any/True/False; on every formula <= 2 (3) nodes additionally: all 15 accepted filter spellings and 6 rejected near-misses, the three input channels (--evaluate, file, stdin; byte-identical stdout), every permutation / ordered subset / one-name superset (unused name before, between, after) of its names as ordering file, -v, -t -v together under each filter, -t -b 1, -t -b 3 (byte-identical to -t), and on a 14-formula core the full cross product spelling x channel x ordering x output; ten formulas with five or six free variables under three filters, -v and four orderings; and the option lattice {-t,-v,-t -v} x -f x -c x -m x -b x ordering x channel on a ten-formula core against the pipeline evaluate -> -c -> -m computed through the library API. Oracle: header = reference free variables in variable order; rows pairwise disjoint cubes; result column = reference value on every assignment covered; union = all / satisfying / falsifying assignments; -v lines denote exactly the satisfying assignments. distinct = distinct (argv, stdout) pairs",
     assumptions: &["only the |-separated cells of stdout are read (layout is free)", "reference semantics and free-variable analysis of harness/src/refl.rs; -b 0 and -g are outside the property"],
     max_shards: 64,
     run,
@@ -277,6 +277,105 @@ fn family_c(ctx: &mut Ctx, text: &str, idx: &mut u64) {
     }
 }
 
+
+/// Option interplay: every combination of {-t, -v, -t -v} x -f {none,t,f} x -c {none,t,f} x
+/// {-m} x {-b none,1,2} x {no ordering, reversed} x 3 channels on a formula core. The oracle is
+/// the documented pipeline computed through the library API (evaluate, drop choices, take a
+/// model), whose result the table / -v output must partition faithfully.
+fn pipeline_lattice(ctx: &mut Ctx, idx: &mut u64) {
+    use crate::conv::{impl_eval, tt_named, ImplParse};
+    let core = ["a & b", "a | b", "(a & b) | (-a & c)", "a ^ b ^ c", "[a, b, c] = 1", "if a then b else c", "exists c # (a & c) | (b & -c)", "a & -a", "a => b", "lfp X # a | (X & b)"];
+    for text in core {
+        let Ok(a) = refl::parse(text) else { continue };
+        let Some(exp0) = expect_of(&a) else { continue };
+        let names = exp0.names.clone();
+        let rev: String = names.iter().rev().cloned().collect::<Vec<_>>().join(" ");
+        for cval in 0..3usize {
+            for m in [false, true] {
+              for ord in [None, Some(rev.clone())] {
+                // expected diagram through the API, under the SAME variable order (which cube
+                // `model` picks depends on the order)
+                let ordering = ord.as_ref().map(|o: &String| o.split_whitespace().enumerate().map(|(i, n)| crate::conv::sym(n, i)).collect::<Vec<_>>());
+                let ImplParse::Ok(p) = crate::conv::impl_parse_bytes(text.as_bytes(), ordering) else { continue };
+                let Ok(mut g) = impl_eval(&p) else { continue };
+                let env = p.env.clone();
+                if cval > 0 {
+                    let f = if cval == 1 { rsbdd::TruthTableEntry::True } else { rsbdd::TruthTableEntry::False };
+                    match crate::runner::guarded(|| env.retain_choice_bottom_up(g.clone(), f)) {
+                        Ok(x) => g = x,
+                        Err(_) => continue,
+                    }
+                }
+                if m {
+                    match crate::runner::guarded(|| env.model(g.clone())) {
+                        Ok(x) => g = x,
+                        Err(_) => continue,
+                    }
+                }
+                let Ok(want) = tt_named(&g, &names) else { continue };
+                let exp = Expect { names: names.clone(), want, free: exp0.free.clone() };
+                for tv in 0..3usize {
+                    for fval in 0..3usize {
+                        for b in 0..3usize {
+                            {
+                                *idx += 1;
+                                if !ctx.mine(*idx) {
+                                    continue;
+                                }
+                                let mut opts: Vec<String> = vec![];
+                                if tv != 1 {
+                                    opts.push("-t".into());
+                                }
+                                if tv != 0 {
+                                    opts.push("-v".into());
+                                }
+                                let filter = [Filter::Any, Filter::True, Filter::False][fval];
+                                if fval > 0 {
+                                    opts.extend(["-f".to_string(), ["", "True", "f"][fval].to_string()]);
+                                }
+                                if cval > 0 {
+                                    opts.extend(["-c".to_string(), ["", "t", "false"][cval].to_string()]);
+                                }
+                                if m {
+                                    opts.push("-m".into());
+                                }
+                                if b > 0 {
+                                    opts.extend(["-b".to_string(), b.to_string()]);
+                                }
+                                let mut inv = base(text, opts);
+                                inv.channel = [Channel::Evaluate, Channel::File, Channel::Stdin][(*idx % 3) as usize];
+                                inv.ordering = ord.as_ref().map(|o| o.as_bytes().to_vec());
+                                ctx.begin_case(|| json!({"part": "pipeline", "inv": inv.to_json()}));
+                                ctx.count("evaluations", 1);
+                                ctx.count("pipeline_runs", 1);
+                                let r = inv.run();
+                                ctx.distinct(&(inv.key(), &r.run.stdout));
+                                let key = format!("{TAG} {}", inv.key());
+                                if !r.run.ok() {
+                                    ctx.violation(key, format!("rsbdd failed: {} {}", r.run.describe(), r.run.err_tail()), json!({"part": "pipeline", "inv": inv.to_json()}));
+                                    continue;
+                                }
+                                let order = var_order(&names, ord.as_deref());
+                                let mut c = vec![];
+                                if tv != 1 {
+                                    c.extend(judge_table(&r.run.out(), &exp, &order, filter));
+                                }
+                                if tv != 0 {
+                                    c.extend(judge_vars(&r.run.out(), &exp, &order));
+                                }
+                                if !c.is_empty() {
+                                    ctx.violation(key, format!("against the pipeline evaluate -> drop choices (-c) -> model (-m) computed through the library: {}", c.join("; ")), json!({"part": "pipeline", "inv": inv.to_json()}));
+                                }
+                            }
+                        }
+                    }
+                }
+              }
+            }
+        }
+    }
+}
+
 fn run(ctx: &mut Ctx) {
     let th = ctx.thorough();
     let set = cli_formula_set(if th { 4 } else { 3 });
@@ -297,6 +396,7 @@ fn run(ctx: &mut Ctx) {
     for f in CORE {
         family_c(ctx, f, &mut idx);
     }
+    pipeline_lattice(ctx, &mut idx);
     for f in BIG {
         idx += 1;
         if ctx.mine(idx) {
@@ -308,6 +408,18 @@ fn run(ctx: &mut Ctx) {
 }
 
 fn replay(ctx: &mut Ctx, c: &Value) {
+    if c["part"].as_str() == Some("pipeline") {
+        let mut c2 = Ctx::new("C10", ctx.tier, ctx.seed, 0, 1);
+        let mut idx = 0u64;
+        pipeline_lattice(&mut c2, &mut idx);
+        for v in c2.violations {
+            if v.replay["inv"]["opts"] == c["inv"]["opts"] && v.replay["inv"]["formula"] == c["inv"]["formula"] && v.replay["inv"]["ordering"] == c["inv"]["ordering"] {
+                ctx.violation(v.key, v.what, v.replay);
+            }
+        }
+        crate::cli::cleanup_scratch();
+        return;
+    }
     let inv = Inv::from_json(&c["inv"]);
     let mode = match c["mode"].as_str() {
         Some("true") => Mode::Table(Filter::True),
